@@ -22,7 +22,15 @@ def run(ctx):
                       "Regex::replace* on the old line (which keeps unmatched text), not assembled from capture groups of "
                       "an unanchored pattern")
     ctx.rule("R11-5", "between stdout and the splice only trailing newlines are removed")
+    ctx.rule("R11-8", "cmd runs exactly once: no function expands the same line twice - on no path do two call sites that "
+                      "(transitively) reach shell::do_expansion receive text derived from the same parameter")
+    ctx.rule("R11-7", "the output is spliced into the word that held the substitution: the position recorded for a word is "
+                      "not used after the token vector's length changed (E-EDITLIST)")
     for crate in ctx.crates:
+        from .. import editlist
+        n_ = editlist.rule(ctx, crate, "R11-7", list(SITES))
+        ctx.floor("R11-7", crate, "substitution passes with a token vector", n_, 2)
+        once_rule(ctx, crate)
         scanners = taint.dollar_scanners(crate)
         nsites = 0
         for p in SITES:
@@ -188,3 +196,116 @@ def surrounding_rule(ctx, crate):
                                       "the groups (before an earlier `$`, after a newline) is dropped")
         n += 1
     ctx.require(n >= 1, "R11-6", "R11-6|%s|anchor" % b.path, "no reassignment of the rewritten word from command output found", b.path)
+
+
+TEXT_TYPES = ("&str", "&std::string::String", "std::string::String", "&mut std::string::String")
+
+
+def _is_text(b, l):
+    return b.locals[l]["ty"].replace("&'_ ", "&") in TEXT_TYPES
+
+
+def _feeds(b, arg, l):
+    pe = strip_sites(b.local_expr(l))
+    return flow.backward(b, arg, lambda z: z == pe, through_containers=False) is not None
+
+
+def direct_expanders(crate):
+    """{function path: set of parameter indexes whose text the function tokenizes and expands}: the function calls
+    parse_line(x) with x derived from the parameter and do_expansion on tokens derived from that result; closed
+    under passing the text on to such a function"""
+    out = {}
+    target = "shell::do_expansion"
+    for p, b in crate.bodies.items():
+        if b.kind != "fn":
+            continue
+        pls = [bb for bb, t, c in b.calls() if c.endswith("parser_line::parse_line")]
+        des = [bb for bb, t, c in b.calls() if c == target]
+        if not pls or not des:
+            continue
+        for l in range(1, b.arg_count + 1):
+            if not _is_text(b, l):
+                continue
+            for pb in pls:
+                if not _feeds(b, b.call_args(pb)[0], l):
+                    continue
+                res = strip_sites(b.call_expr(pb))
+                for db in des:
+                    targ = b.call_args(db)[-1]
+                    if flow.backward(b, targ, lambda z: z == res) is not None or any(
+                            sub == res for sub in mir.subexprs(b.expand_vars(strip_sites(targ)))):
+                        out.setdefault(p, set()).add(l)
+    changed = True
+    while changed:
+        changed = False
+        for p, b in crate.bodies.items():
+            if b.kind != "fn":
+                continue
+            for bb, t, c in b.calls():
+                ci = b.callee_info(t)
+                callee = (ci or {}).get("resolved") or c
+                if callee not in out or callee == p:
+                    continue
+                args = b.call_args(bb)
+                for k in out[callee]:
+                    if k - 1 >= len(args):
+                        continue
+                    for l in range(1, b.arg_count + 1):
+                        if _is_text(b, l) and _feeds(b, args[k - 1], l):
+                            if l not in out.get(p, set()):
+                                out.setdefault(p, set()).add(l)
+                                changed = True
+    return out
+
+
+def once_rule(ctx, crate):
+    """a line handed to an entry function is expanded once"""
+    if not ctx.require(crate.fn("shell::do_expansion") is not None, "R11-8", "R11-8|anchor", "shell::do_expansion not found"):
+        return
+    exp = direct_expanders(crate)
+    if not ctx.require("types::CommandLine::from_line" in exp, "R11-8", "R11-8|anchor|from_line",
+                       "CommandLine::from_line not recognised as the function that tokenizes and expands a line"):
+        return
+    nfn = 0
+    for p in sorted(exp):
+        b = crate.fn(p)
+        sites = []
+        for bb, t, c in b.calls():
+            ci = b.callee_info(t)
+            callee = (ci or {}).get("resolved") or c
+            if callee not in exp or callee == p:
+                continue
+            args = b.call_args(bb)
+            roots = set()
+            for k in exp[callee]:
+                if k - 1 < len(args):
+                    for l in exp[p]:
+                        if _feeds(b, args[k - 1], l):
+                            roots.add(l)
+            if roots:
+                sites.append((bb, callee, roots))
+        # the function's own parse_line + do_expansion counts as a site too
+        own = [bb for bb, t, c in b.calls() if c == "shell::do_expansion"]
+        for bb in own:
+            sites.append((bb, "shell::do_expansion", set(exp[p])))
+        if len(sites) < 2:
+            continue
+        nfn += 1
+        back = set(b.back_edges())
+        bad = None
+        for b1, c1, r1 in sites:
+            reach, todo = set(), [y for y in b.succs[b1] if (b1, y) not in back]
+            while todo:
+                x = todo.pop()
+                if x not in reach:
+                    reach.add(x)
+                    todo.extend(y for y in b.succs[x] if (x, y) not in back)
+            for b2, c2, r2 in sites:
+                if b2 != b1 and (r1 & r2) and b2 in reach:
+                    bad = (b1, c1, b2, c2)
+        ctx.ob("R11-8", p, "the text of one parameter is tokenized and expanded at most once per path", bad is None,
+               key="R11-8|%s|expanded-twice" % p, where=b.loc(bad[2]) if bad else "", crate=crate.kind,
+               detail=None if bad is None else "%s and then %s both expand the line: every $(cmd) / `cmd` on it runs twice"
+               % (mir.short(bad[1]), mir.short(bad[3])))
+    ctx.ob("R11-8", "call graph", "%d function(s) tokenize-and-expand a text parameter (directly or by passing it on); %d have "
+           "two or more such sites" % (len(exp), nfn), True, crate=crate.kind, nontrivial=False)
